@@ -82,6 +82,8 @@ def random_indices(rng, n, allow_empty=False):
     idx = [int(i) for i in rng.permutation(n)[:k]]
     if rng.random() < 0.3 and k >= 2:
         idx.append(idx[0])  # repeat
+    if rng.random() < 0.2:
+        idx = [np.int64(i) for i in idx]  # indices as they come out of np.where / np.argsort: numpy integers in a list
     return idx
 
 
